@@ -266,3 +266,22 @@ func Unwrap(vs []interface{}) (out []interface{}, ok bool) {
 	}
 	return out, true
 }
+
+// PureConfigs returns configs with the standard functions but without recording (safe to
+// share between goroutines).
+func PureConfigs() (plain, acc jsonpath.Config) {
+	for base, fn := range baseFilter {
+		for _, suf := range []string{"", "1", "2", "3"} {
+			plain.SetFilterFunction(base+suf, fn)
+			acc.SetFilterFunction(base+suf, fn)
+		}
+	}
+	for base, fn := range baseAggregate {
+		for _, suf := range []string{"", "1", "2", "3"} {
+			plain.SetAggregateFunction(base+suf, fn)
+			acc.SetAggregateFunction(base+suf, fn)
+		}
+	}
+	acc.SetAccessorMode()
+	return
+}
